@@ -95,11 +95,11 @@ Print Assumptions C05_futures_keep_invariant.
    list, and the other module's driver is untouched.  Not proved about the composite: that its
    event set serves events in time order (C01) and that its task logs are what the property
    demands; the correspondence check validates those on every run. *)
-Theorem C05_composite_event_is_driver_event : forall (t m : N) (spawn : list nat) (fire : bool) (w : world),
+Theorem C05_composite_event_is_driver_event : forall (wfix : bool) (t m : N) (spawn : list nat) (fire : bool) (w : world),
   (exists ops, ops_wf t ops /\
-     drv_of (module_event t m spawn fire w) m =
+     drv_of (module_event wfix t m spawn fire w) m =
      snd (event_body true t ops (if fire then sched_fire t (drv_of w m) else drv_of w m))) /\
-  forall m', (m' =? 0) <> (m =? 0) -> drv_of (module_event t m spawn fire w) m' = drv_of w m'.
+  forall m', (m' =? 0) <> (m =? 0) -> drv_of (module_event wfix t m spawn fire w) m' = drv_of w m'.
 Proof. exact module_event_is_driver_event. Qed.
 Print Assumptions C05_composite_event_is_driver_event.
 
@@ -108,6 +108,18 @@ Theorem C05_due_deadline_completes_immediately : forall now s dr, deadline s <= 
   sleep_poll now s dr = (true, {| deadline := deadline s; sid := sid s; handle := None |}, dr).
 Proof. exact due_deadline_completes_immediately. Qed.
 Print Assumptions C05_due_deadline_completes_immediately.
+
+(* A registered Sleep follows the task that polls it (commit 5af9a5f): after any sequence of
+   polls before the deadline, by whatever tasks, the entry is registered once and the waker
+   stored with it is that of the task that polled last -- the task that is awaiting it. *)
+Theorem C05_woken_through_last_poller : forall polls t k s dr tab,
+  Forall (fun p => fst p < deadline s) (polls ++ [(t, k)]) ->
+  let r := poll_seq true (polls ++ [(t, k)]) s dr tab in
+  waker_of (snd r) (sid s) = Some k /\
+  snd (fst r) = match handle s with None => register (sid s) (deadline s) dr | Some _ => dr end /\
+  handle (fst (fst r)) = Some (match handle s with None => deadline s | Some h => h end).
+Proof. exact woken_through_last_poller. Qed.
+Print Assumptions C05_woken_through_last_poller.
 
 (* Timeout, for ANY value future that becomes ready at instant r: polled at instants before
    min r D and then at min r D (the wake-up the driver guarantees), it completes at min r D,
@@ -180,3 +192,9 @@ Proof.
     split; [exists 10; split; [vm_compute; reflexivity|repeat constructor]|].
     split; [exists 10; split; [vm_compute; reflexivity|constructor]|exact I].
 Qed.
+
+(* hand-over in the composite model: task 0 polls a boxed sleep(10) at 0 and sends it to task 1,
+   then sleeps 30; task 1 receives it at 0 and resumes at exactly 10 *)
+Example C05_nonvacuous_hand_over :
+  run [0; 2; 7; 0; 0; 9; 0; 10; 1; 30; 4; 0; 0; 10; 0] = [2; 0; 30; 1; 2; 0; 10; 1; 1; 30].
+Proof. vm_compute. reflexivity. Qed.
